@@ -29,16 +29,21 @@ func Pull(repo repository.ClockedRepo, remote string) error {
 		return err
 	}
 
+	// read the results up to the end, even after a failure: the remaining identities are merged
+	// anyway and the merging goroutine would stay blocked for ever on an abandoned channel
+	var firstErr error
 	for merge := range MergeAll(repo, remote) {
-		if merge.Err != nil {
-			return merge.Err
+		if firstErr != nil {
+			continue
 		}
-		if merge.Status == entity.MergeStatusInvalid {
-			return errors.Errorf("merge failure: %s", merge.Reason)
+		if merge.Err != nil {
+			firstErr = merge.Err
+		} else if merge.Status == entity.MergeStatusInvalid {
+			firstErr = errors.Errorf("merge failure: %s", merge.Reason)
 		}
 	}
 
-	return nil
+	return firstErr
 }
 
 // MergeAll will merge all the available remote identity
